@@ -2678,7 +2678,7 @@ func init() {
 		Floor: 1, MustExist: true, Run: runR057,
 	})
 	register(&Rule{
-		ID: "R05.8", Props: []string{"C05", "C01"}, Engine: "path automaton (SSA)",
+		ID: "R05.8", Props: []string{"C05", "C01", "C08"}, Engine: "path automaton (SSA)",
 		Text:  "whatever cannot be found is reported missing: in FindMissing of both local stores, on every path on which a lookup (KeyLocationMap.Get / getLeastSpecificLookupEntry) failed with NOT_FOUND, the digest is added to the set of missing objects before the next lookup or the final answer (also in the second, refreshing scan: an object that vanished between the scans must not be reported present)",
 		Floor: 4, MustExist: true, Run: runR058,
 	})
@@ -4153,7 +4153,7 @@ func init() {
 		Floor: 5, MustExist: true, Run: runR0210,
 	})
 	register(&Rule{
-		ID: "R02.11", Props: []string{"C02", "C07", "C03"}, Engine: "guard + shape (SSA)",
+		ID: "R02.11", Props: []string{"C02", "C07", "C03", "C08"}, Engine: "guard + shape (SSA)",
 		Text:  "when a block leaves, the epochs it carried leave every counter: PersistentBlockList.PopFront lowers synchronizingEpochs and synchronizedEpochs, each by the popped block's epoch count and each clamped at zero by a comparison of that count with the same counter (never by a shared amount derived from the other counter)",
 		Floor: 2, MustExist: true, Run: runR0211,
 	})
@@ -4518,7 +4518,7 @@ func init() {
 		Floor: 5, MustExist: true, Run: runR1212,
 	})
 	register(&Rule{
-		ID: "R15.6", Props: []string{"C15"}, Engine: "order (SSA reachability)",
+		ID: "R15.6", Props: []string{"C15", "C04"}, Engine: "order (SSA reachability)",
 		Text:  "release before waiting: in the Close methods of the background-task decorators (chunkReaderWithBackgroundTask, readerWithBackgroundTask) the wrapped reader is closed before the task's completion is awaited – the task may be consuming the sibling of the same clone group and can only finish once this consumer has let go",
 		Floor: 2, MustExist: true, Run: runR156,
 	})
